@@ -201,6 +201,20 @@ CLAIMED = {
         "are undocumented and not asserted.",
         "4/C14",
     ),
+    "C17": (
+        "Hypothesis-generated operands for a fixed registry of 121 call forms and random chains of calls, "
+        "with deep before/after snapshots of every argument, caller-owned containers and the global RNG "
+        "state; element-wise agreement of image arithmetic with numpy",
+        "Every registered call form that is documented to return a new object is run on generated images "
+        "of every kind; all arguments (array bytes, every attribute, caller-owned lists/dicts) and "
+        "numpy's global RNG state are snapshotted before and compared after; the result must share no "
+        "memory with an argument and mutating it through the documented in-place API must not reach an "
+        "argument; chains of up to five calls on shared operands detect delayed exposure; arithmetic and "
+        "comparisons agree with numpy for every documented scalar type.",
+        "extraction forms and constructors may return views (labelled, not failed); documented in-place "
+        "methods are not in the registry.",
+        "4/C17",
+    ),
     "C15": (
         "exhaustive generated enumeration of all quadrature rules vs analytic monomial integrals "
         "and numpy leggauss tensor-product reference",
